@@ -137,7 +137,7 @@ class Cond:
 
 class State:
     __slots__ = ('env', 'events', 'conds', 'loops', 'trys', 'held', 'exc',
-                 'steps')
+                 'steps', '_caller_env')
 
     def __init__(self):
         self.env = {}
@@ -159,6 +159,8 @@ class State:
         s.held = self.held
         s.exc = self.exc
         s.steps = self.steps
+        if hasattr(self, '_caller_env'):
+            s._caller_env = self._caller_env
         return s
 
 
@@ -201,6 +203,9 @@ class Signal:
         self.types = types    # set of names, or None = unknown / any
 
 
+STATS = {'functions_enumerated': 0, 'paths': 0, 'events': 0,
+         'helpers_inlined': 0, 'paths_cut_at_loop_bound': 0}
+
 CATCH_ALL = {'Exception', 'BaseException'}
 NOT_EXCEPTION = {'CancelledError', 'KeyboardInterrupt', 'SystemExit',
                  'GeneratorExit'}
@@ -225,6 +230,7 @@ class Run:
         self.inline_resolver = inline_resolver
         self.inline_depth = 0
         self.inlined = []
+        self.yield_hooks = []
         self.symdefs = {}
         self.counter = 0
         self.cut = 0
@@ -265,6 +271,11 @@ class Run:
         for p in self.paths:
             for i, e in enumerate(p.events):
                 e.idx = i
+        STATS['functions_enumerated'] += 1
+        STATS['paths'] += len(self.paths)
+        STATS['events'] += sum(len(p.events) for p in self.paths)
+        STATS['helpers_inlined'] += len(self.inlined)
+        STATS['paths_cut_at_loop_bound'] += self.cut
 
     # ------------------------------------------------------------ helpers
     def fresh(self, name, kind, expr, node, st):
@@ -507,6 +518,11 @@ class Run:
             if sig is not None:
                 out.append((s, None, sig))
                 continue
+            if getattr(v, '_inlined', False):
+                # `await helper()` of a coroutine that was looked through:
+                # its own awaits are already on the path
+                out.append((s, v, None))
+                continue
             s = s.fork() if s is st else s
             self.emit(s, 'await', node, v, maybe=maybe)
             out.append((s, ast.Await(value=v), None))
@@ -517,6 +533,9 @@ class Run:
         for s, v, sig in self.eval(node.value, st, maybe):
             if sig is not None:
                 out.append((s, None, sig))
+                continue
+            if self.yield_hooks and not maybe:
+                out += self.run_loop_body_at_yield(v, s)
                 continue
             s = s.fork() if s is st else s
             self.emit(s, 'yield', node, v, maybe=maybe)
@@ -576,6 +595,97 @@ class Run:
                     out.append((s3, call, None))
         return out
 
+    def run_loop_body_at_yield(self, value, st):
+        """`for target in helper(...): body` with helper a generator that
+        was looked through: each `yield value` runs the caller's loop body
+        with target bound to the value."""
+        loop, caller_env, depth = self.yield_hooks[-1]
+        st = st.fork()
+        callee_env = st.env
+        st.env = dict(caller_env['env'])
+        self.bind_loop_value(loop.target, value, st, loop)
+        hooks = self.yield_hooks
+        self.yield_hooks = hooks[:-1]
+        saved_depth = self.inline_depth
+        self.inline_depth = depth
+        try:
+            outs = self.block(loop.body, st)
+        finally:
+            self.yield_hooks = hooks
+            self.inline_depth = saved_depth
+        res = []
+        for s2, sig in outs:
+            # assignments made by the loop body belong to the caller
+            caller_env['env'] = dict(s2.env)
+            s2.env = dict(callee_env)
+            s2._caller_env = dict(caller_env['env'])
+            if sig is None or sig.kind == 'continue':
+                res.append((s2, const(None), None))
+            elif sig.kind == 'break':
+                res.append((s2, None, Signal('genbreak')))
+            else:
+                res.append((s2, None, sig))
+        return res
+
+    def bind_loop_value(self, target, value, st, node):
+        if isinstance(target, (ast.Tuple, ast.List)) and \
+                isinstance(value, (ast.Tuple, ast.List)) and \
+                len(target.elts) == len(value.elts):
+            for t, v in zip(target.elts, value.elts):
+                self.bind_loop_value(t, v, st, node)
+        elif isinstance(target, ast.Name):
+            st.env[target.id] = value
+        else:
+            self.bind(target, value, st, node)
+
+    def inline_generator_loop(self, loop, fnode, call, st):
+        """execute a `for` over a looked-through generator helper"""
+        a = fnode.args
+        params = [x.arg for x in a.posonlyargs + a.args]
+        env = {}
+        if params[:1] in (['self'], ['cls']) and \
+                isinstance(call.func, ast.Attribute):
+            env[params[0]] = call.func.value
+            params = params[1:]
+        if a.vararg or a.kwarg or any(isinstance(x, ast.Starred)
+                                      for x in call.args) or \
+                any(k.arg is None for k in call.keywords) or \
+                len(call.args) > len(params):
+            return None
+        for p_, v in zip(params, call.args):
+            env[p_] = v
+        for k in call.keywords:
+            if k.arg not in params or k.arg in env:
+                return None
+            env[k.arg] = k.value
+        nd = len(a.defaults)
+        for p_, d in zip(params[len(params) - nd:], a.defaults):
+            env.setdefault(p_, copy.deepcopy(d))
+        if any(p_ not in env for p_ in params):
+            return None
+        if any(isinstance(x, ast.YieldFrom) for x in ast.walk(fnode)):
+            return None
+        st = st.fork()
+        caller_env = {'env': dict(st.env)}
+        st.env = env
+        self.emit(st, 'inline', loop, call, extra=fnode.name)
+        self.inlined.append(fnode.name)
+        self.yield_hooks.append((loop, caller_env, self.inline_depth))
+        self.inline_depth += 1
+        try:
+            outs = self.block(body_of(fnode), st)
+        finally:
+            self.inline_depth -= 1
+            self.yield_hooks.pop()
+        res = []
+        for s2, sig in outs:
+            s2.env = dict(getattr(s2, '_caller_env', caller_env['env']))
+            if sig is None or sig.kind in ('return', 'genbreak'):
+                res.append((s2, None))
+            else:
+                res.append((s2, sig))
+        return res
+
     def inline_call(self, fnode, call, node, st):
         """Execute the body of a helper introduced after the rules were
         written in the caller's state: its events and conditions become part
@@ -627,10 +737,14 @@ class Run:
         for s2, sig in outs:
             s2.env = dict(caller_env)
             if sig is None:
-                res.append((s2, const(None), None))
+                v = const(None)
+                v._inlined = True
+                res.append((s2, v, None))
             elif sig.kind == 'return':
-                res.append((s2, sig.value if sig.value is not None
-                            else const(None), None))
+                v = copy.copy(sig.value) if sig.value is not None \
+                    else const(None)
+                v._inlined = True
+                res.append((s2, v, None))
             elif sig.kind in ('raise', 'cut'):
                 res.append((s2, None, sig))
             else:
@@ -1124,6 +1238,35 @@ class Run:
         out = []
         is_async = isinstance(s, ast.AsyncFor)
         bound = self._loop_bound(s)
+        gen = None
+        if self.inline_resolver is not None and \
+                isinstance(s.iter, ast.Call) and self.inline_depth < 3 and \
+                not s.orelse:
+            g = self.inline_resolver(s.iter)
+            if g is not None and any(isinstance(x, ast.Yield)
+                                     for x in ast.walk(g)):
+                gen = g
+        if gen is not None:
+            done = []
+            ok = True
+            for s0, fv, sig in self.eval(s.iter.func, st):
+                for s1, avs, sig1 in self.eval_seq(s.iter.args, s0):
+                    for s2, kvs, sig2 in self.eval_seq(
+                            [k.value for k in s.iter.keywords], s1):
+                        if sig or sig1 or sig2:
+                            ok = False
+                            continue
+                        call = ast.Call(func=fv, args=avs, keywords=[
+                            ast.keyword(arg=k.arg, value=v)
+                            for k, v in zip(s.iter.keywords, kvs)])
+                        ast.copy_location(call, s.iter)
+                        r = self.inline_generator_loop(s, gen, call, s2)
+                        if r is None:
+                            ok = False
+                        else:
+                            done += r
+            if ok:
+                return done
         for s0, itv, sig in self.eval(s.iter, st):
             if sig is not None:
                 out.append((s0, sig))
@@ -1346,6 +1489,34 @@ def new_helper_resolver(finfo, model):
             return None
         return t.node
     return resolve
+
+
+def with_new_helpers(model, finfo, depth=3):
+    """[function nodes]: finfo's own node plus the helpers introduced after
+    the rules were written that it calls (transitively) - for rules that
+    scan the syntax of a function rather than enumerate its paths."""
+    from .known_names import KNOWN_NAMES
+    out = [finfo]
+    work = [(finfo, 0)]
+    while work:
+        f, d = work.pop()
+        if d >= depth:
+            continue
+        for n in ast.walk(f.node):
+            if not isinstance(n, ast.Call):
+                continue
+            fn = n.func
+            name = fn.attr if isinstance(fn, ast.Attribute) else \
+                fn.id if isinstance(fn, ast.Name) else None
+            if name is None or name in KNOWN_NAMES:
+                continue
+            kind, tg = model.resolve_call(f, n)
+            if kind == 'internal':
+                for t in tg:
+                    if t not in out:
+                        out.append(t)
+                        work.append((t, d + 1))
+    return out
 
 
 def run_function(finfo, model=None, **kw):
